@@ -20,7 +20,8 @@ CONSTANTS Frames,          \* set of frame records
           DevColonNested,      \* as-built before the fix: a ::: directive whose body starts with a ::: fence is +1 inside
           DevFirstLine,        \* as-built (open finding): body text on the fence line gets the next line's number
           DevRestoreToTop,     \* a seeded change: after an include the source is reset to the top-level file
-          DevAttribution       \* as-built before the fix: a quote directive's attribution is reported one line early
+          DevAttribution,      \* as-built before the fix: a quote directive's attribution is reported one line early
+          DevQuoteNoLine       \* as-built before the fix (approximation): the quote directive's block_quote has no line of its own
 
 Paths == UNION {[1..n -> Frames] : n \in 0..MaxDepth}
 OptLines(f) == IF f.opt = "none" THEN 0 ELSE IF f.opt = "colon" THEN f.nopt ELSE f.nopt + 2
@@ -74,7 +75,11 @@ EnterDirective ==
          position == base + row + 1                              \* token_line of the fence
          plus == IF DevColonNested /\ f.w = "colon" /\ f.opt = "none" /\ f.blanks = 0 /\ f.skip = 0 /\ ~f.first /\ NextStartsWithColon
                  THEN 1 ELSE 0                                    \* the "\n" + content trick of render_colon_fence
-     IN /\ marks' = Append(marks, Mark("directive"))
+     IN /\ marks' = Append(marks, IF f.dname = "epigraph"
+                                    \* the block_quote a quote directive returns: MockState.block_quote, first body line (as docutils)
+                                    THEN [what |-> "quote-directive", m |-> position + BodyOffset(f) + 1 - (IF DevQuoteNoLine THEN 1 ELSE 0),
+                                          s |-> abs + BodyOffset(f) + 1, src |-> src, ssrc |-> ssrc]
+                                    ELSE Mark("directive"))
         /\ IF f.first                                                  \* the fence line itself is body row 0
            THEN /\ base' = (position - 1) + (IF DevFirstLine THEN 1 ELSE 0)  \* as built: rendered at position + 0, i.e. one line late
                 /\ row' = 0
